@@ -338,7 +338,7 @@ impl<'a> G<'a> {
             Op::Lazy => {
                 st.kind = self.rng.below(4) as u8;
                 st.form = self.rng.below(3) as u8;
-                st.sink = self.rng.below(3) as u8;
+                st.sink = self.rng.below(4) as u8;
                 st.n = self.rng.below(4) as u32;
                 st.a = self.rng.below(len.max(1) as u64);
             }
